@@ -98,7 +98,22 @@ fn members() -> Vec<Entry> {
     kv(Occ::One, arrow(name("tstr")), name("any")),
     Entry { occ: Occ::One, kind: EK::Ref("gk".into(), vec![]) },
     Entry { occ: Occ::One, kind: EK::Ref("go".into(), vec![]) },
+    // generic group references (each citation binds its own arguments)
+    Entry { occ: Occ::One, kind: EK::Ref("kv".into(), vec![t1(text("c")), t1(name("int"))]) },
+    Entry { occ: Occ::Opt, kind: EK::Ref("kv".into(), vec![t1(text("b")), t1(name("tstr"))]) },
   ]
+}
+
+/// the generic group rule the member alphabet cites: kv<k, v> = (k => v)
+fn generic_lib() -> Vec<RuleT> {
+  let mut lib = helper_rules();
+  lib.push(RuleT {
+    name: "kv".into(),
+    params: vec!["k".into(), "v".into()],
+    assign: Assign::Eq,
+    body: Body::Group(Entry { occ: Occ::One, kind: EK::Inline(Grp(vec![vec![Entry { occ: Occ::One, kind: EK::Val(Some(Key::Arrow(t1(name("k")), false)), ty1(name("v"))) }]])) }),
+  });
+  lib
 }
 
 /// sub-alphabet for the two-alternative family (<= 2 members per alternative)
@@ -130,6 +145,10 @@ fn lit_key(e: &Entry) -> Option<String> {
     },
     EK::Ref(n, _) if n == "gk" => Some("t:a".into()),
     EK::Ref(n, _) if n == "go" => Some("t:b".into()),
+    EK::Ref(n, a) if n == "kv" => match a.first().map(|k| &k.t2) {
+      Some(T2::Lit(Lit::Text(s))) => Some(format!("t:{s}")),
+      _ => None,
+    },
     _ => None,
   }
 }
@@ -410,7 +429,7 @@ fn classify_a(g: &[Vec<Entry>], d: &RV) -> Option<String> {
 pub fn run(tier: Tier) -> i32 {
   quiet_panics();
   let mut run = Run::new("C10", tier, "model_checking");
-  let lib = helper_rules();
+  let lib = generic_lib();
   let ms = members();
   let docs = map_docs(tier);
   // family 1: maps with 1..3 members from the member alphabet (one group choice), and two-alternative maps
